@@ -325,6 +325,7 @@ func (t *Topic) collect(event Event) error {
 	}
 
 	t.collected.Add(1)
+	verifHook("topic.updated", t.id, event.State.ID)
 
 	return t.handleEvent(event)
 }
@@ -440,6 +441,7 @@ func (h *bufHandler) Abort() {
 func (h *bufHandler) Handle(event Event) error {
 	select {
 	case h.events <- event:
+		verifHook("handler.enq", event.Topic)
 		return nil
 	default:
 		return fmt.Errorf("failed to deliver event %q to handler", event.State.ID)
@@ -454,6 +456,7 @@ func (h *bufHandler) run() {
 				return
 			}
 			h.h.Handle(event)
+			verifHook("handler.done", event.Topic)
 		case <-h.aborting:
 			return
 		}
